@@ -35,11 +35,15 @@ GeoStencil(a, d, op, from, to, rule, fill) ==
            Comb(op, AtRule(a, idx, d, IdxOf(from, c - 1), rule, fill),
                     AtRule(a, idx, d, IdxOf(from, c + 1), rule, fill)))
 
+\* addition that knows the infinities (a running sum that has met +inf stays there until it meets -inf)
+Plus(x, y) == IF x = NaNv \/ y = NaNv THEN NaNv
+              ELSE IF IsInf(x) /\ IsInf(y) THEN (IF x = y THEN x ELSE NaNv)
+              ELSE IF IsInf(x) THEN x ELSE IF IsInf(y) THEN y ELSE x + y
 \* sum of the input values at coordinates strictly below c
 RECURSIVE SumBeforeFrom(_, _, _, _, _, _)
 SumBeforeFrom(a, idx, d, from, c, i) ==
   IF i >= a.shape[d] \/ Coord(from, i) >= c THEN 0
-  ELSE Get(a, [idx EXCEPT ![d] = i]) + SumBeforeFrom(a, idx, d, from, c, i + 1)
+  ELSE Plus(Get(a, [idx EXCEPT ![d] = i]), SumBeforeFrom(a, idx, d, from, c, i + 1))
 SumBefore(a, idx, d, from, c) == SumBeforeFrom(a, idx, d, from, c, 0)
 
 GeoCumsum(a, d, from, to, rule, fill) ==
